@@ -12,6 +12,15 @@ CHECKS = {
         'exit of fit returns the estimator itself, and components_ is assigned on every path to every exit. Numeric validity '
         '(finite / PSD values) is NOT decided.'),
   note=TB),
+ 'C05': dict(
+  technique='static analysis: taint abstract interpretation (single validated choke point), value-flow of the preprocessor to every check_input call site, path-condition and who-may-call rules, structural normal form of tuple formation, try/except exception-class resolution',
+  text=('Decides the routing that makes indices+preprocessor equivalent to formed data for all 17 estimators x every data-taking '
+        'method: the raw argument only reaches the validator; every check_input call gets self.preprocessor_, derived first by '
+        '_check_preprocessor (array-like -> ArrayIndexer(array), callable/None -> itself, else ValueError); the preprocessor is '
+        'invoked only by preprocess_tuples/preprocess_points, only under ndim == formed_ndim-1 and preprocessor is not None; tuple '
+        'slot j is preprocessor(tuples[:, j]) in order along axis 1; ArrayIndexer is X[indices]; every call through the user '
+        'callable is wrapped into PreprocessorError. Stateful / non-deterministic callables are NOT covered.'),
+  note=TB),
  'C06': dict(
   technique='static analysis: taint (raw -> converted -> validated) abstract interpretation of all 103 data-taking (estimator, method) pairs with inlined callees, must-pass-through and path-condition rules on the validators, exception-class resolution, library-signature conformance',
   text=('Decides totality of validation for all 17 estimators x every data-taking method: the unvalidated data / label argument is '
@@ -34,7 +43,7 @@ CHECKS = {
 
 _PENDING = 'check not built yet in this revision of /verif (see DESIGN.md section 9 build order); nothing is claimed for it'
 NOT_APPLICABLE = {p: _PENDING for p in
-  ['C01','C02','C04','C05','C07','C08','C09','C10','C11','C12','C13','C14','C15','C17','C19','C20']}
+  ['C01','C02','C04','C07','C08','C09','C10','C11','C12','C13','C14','C15','C17','C19','C20']}
 NOT_APPLICABLE['C16'] = ('optimality of a cut-off over a labelled multiset of distances with ties is a property of runtime '
                          'values; no structural necessary condition of it exists that a sound static rule can name without '
                          'also firing on correct tie-aware rewrites; its parameter-validation sentence is checked as C06(7)')
